@@ -74,7 +74,7 @@ func VC13_Route() {
 	head := "Via: SIP/2.0/UDP 10.0.2.2:5060;branch=z9hG4bKa\r\n"
 	for i, e := range entries {
 		if i > 0 && rt.Bool("comma") {
-			head = head[:len(head)-2] + "," + e + "\r\n"
+			head = head[:len(head)-2] + []string{",", ", ", " ,\t "}[rt.Choice("comma-blanks", 3)] + e + "\r\n"
 		} else {
 			head += []string{"Route", "ROUTE", "route"}[rt.Choice("routename", 3)] + ": " + e + "\r\n"
 		}
